@@ -402,10 +402,17 @@ def check_state_plumb(ctx, R):
     # accumulate seeds its state from start and takes with_state from the keywords
     for mod in ('streamz.core', 'streamz.dask'):
         init = M.method(mod, 'accumulate', '__init__')
-        seeds = any(isinstance(n, ast.Assign) and self_field(n.targets[0]) == 'state' and src(n.value) == 'start' for n in own_nodes(init.node))
-        ws = any(isinstance(n, ast.Assign) and self_field(n.targets[0]) == 'with_state' and isinstance(n.value, ast.Call)
-                 and src(n.value.func) == 'kwargs.pop' and n.value.args and src(n.value.args[0]).strip("'\"") == 'with_state'
-                 for n in own_nodes(init.node))
+        from .dasksib import _ctor_fields
+        cf = _ctor_fields(M, M.cls(mod, 'accumulate'), init)       # on the constructor's symbolic normal form
+        seeds = cf.get('state') == ['start']
+        ws = False
+        if len(cf.get('with_state', ())) == 1:
+            try:
+                v = ast.parse(cf['with_state'][0], mode='eval').body
+            except SyntaxError:
+                v = None
+            ws = isinstance(v, ast.Call) and src(v.func) == 'kwargs.pop' and bool(v.args) and isinstance(v.args[0], ast.Constant) \
+                and v.args[0].value == 'with_state'
         R.ob('STATE-PLUMB', ctx.construct(init), 'seed', seeds and ws,
              'accumulate.__init__ does not seed self.state from start / take with_state from its keywords',
              ctx.where(init, init.node.lineno))
@@ -461,6 +468,14 @@ def check_ctor_copy(ctx, R):
                     target = classes[f]
                 if target is None:
                     continue
+                if f != 'type(self)' and cls.isa(target):
+                    # re-creating the object under a hard-coded class name: every subclass that inherits this method silently
+                    # turns into the base kind (an Expanding window into a row window of n rows, ...)
+                    heirs = sorted(s_.name for s_ in M.classes if s_ is not cls and s_.isa(cls) and s_.find(mname) is fn)
+                    R.ob('CTOR-COPY', ctx.construct(fn), 'keeps-kind', not heirs,
+                         '%s re-creates the object as %s(...) by name, but %s inherit(s) this method: a derived %s silently becomes a '
+                         'plain %s (use type(self))' % (fn.qual, target.name, ', '.join(heirs), heirs[0] if heirs else '', target.name),
+                         ctx.where(fn, n.lineno))
                 tinit = target.find('__init__')
                 tparams = tinit.params()[1:]
                 supplied = {}
@@ -1472,10 +1487,37 @@ def check_carry_plumb(ctx, R):
         if not lens or res != '%s.iloc[C%d:]' % (AGG, lens[0]):
             bad.setdefault('drops-carried-rows', 'the emitted result is %s, not <aggregate>.iloc[len(%s):]: the rows of the carry are '
                            'not exactly the rows that are dropped' % (res[:60], carry))
+        if re.fullmatch(re.escape(DF) + r'\.tail\(window\)', _expand(r, newc, 1)):
+            continue
         if not re.fullmatch(re.escape(DF) + r'\.(iloc|loc)\[[^:\]]+:\]', newc):
             bad.setdefault('carry-is-suffix', 'the new carry is %s, not a suffix %s.iloc[-k:] / %s.loc[t:] of the concatenation'
                            % (newc[:60], DF, DF))
-    for tok in ('concat-order', 'aggregates-concatenation', 'drops-carried-rows', 'carry-is-suffix'):
+            continue
+        # where the suffix starts: a row cut counts from the end; a time cut is measured from the newest row of the WHOLE frame
+        kind, bound = re.fullmatch(re.escape(DF) + r'\.(iloc|loc)\[([^:\]]+):\]', newc).groups()
+        lens_df = ['C%d' % k for k in _only_call(r, lambda c: nf(c) == 'len(%s)' % DF)]
+        if kind == 'iloc':
+            b1 = _expand(r, bound, 1) if re.fullmatch(r'C\d+', bound) else bound
+            if b1 == '-window':
+                pass
+            elif any(b1 in ('max(%s-window,0)' % L, 'max(0,%s-window)' % L) for L in lens_df):
+                pass
+            elif any(bound == '%s-window' % L for L in lens_df):
+                bad.setdefault('carry-bound', 'the row cut starts at len(%s) - window: while fewer than `window` rows have been seen that '
+                               'is negative and counts from the end, so carried rows are dropped' % DF)
+            else:
+                raise AnalysisError('%s: the row cut %s of the carry is not a spelling this check knows' % (con, _expand(r, newc, 2)[:80]))
+        else:
+            m = re.fullmatch(r'(C\d+)-window', bound)
+            src_ = nf(r.calls[int(m.group(1)[1:])][0]) if m else None
+            if src_ in ('%s.index.max()' % DF, '%s.index.max()' % AGG):
+                pass
+            elif src_ is not None and src_.endswith('.index.max()') and (src_.startswith(AGG + '.') or src_.startswith(DF + '.') or src_.startswith(batch + '.')):
+                bad.setdefault('carry-bound', 'the time cut is measured from %s, a part of the frame: for an empty batch that is NaT and the '
+                               'whole carry is dropped' % _expand(r, src_, 1)[:80])
+            else:
+                raise AnalysisError('%s: the time cut %s of the carry is not a spelling this check knows' % (con, _expand(r, newc, 2)[:80]))
+    for tok in ('concat-order', 'aggregates-concatenation', 'drops-carried-rows', 'carry-is-suffix', 'carry-bound'):
         R.ob('CARRY-PLUMB', con, tok, tok not in bad and n > 0, bad.get(tok, ''), ctx.where(fn, fn.node.lineno), None, n)
     # ---- cumulative
     fn = M.function(DFC, '_cumulative_accumulator')
